@@ -1,7 +1,9 @@
 /-
   GV.Model.NoSync — the single-threaded replacements of the sync primitives (/repo/nosync/mutex.go, once.go,
   map.go, pool.go) as state machines: one instance of each of Mutex, RWMutex, WaitGroup, Once, Map, Pool and the
-  operations a goroutine can apply to them. A panic is an outcome (the Go value is recoverable, the state keeps
+  operations a goroutine can apply to them. Map keys / values and Pool items are CODES of Go values: 0 = nil interface,
+  1 = typed nil pointer (*int)(nil), 2 = int(0), 3 = "", other n = int n. A Map entry whose value is code 0 is a key
+  PRESENT with a nil value (comma-ok lookup says ok = true). A panic is an outcome (the Go value is recoverable, the state keeps
   whatever the method changed before panicking).
 -/
 namespace GV.NoSync
